@@ -47,3 +47,38 @@ def run (args : Json) : Except String Json := do
   pure (Json.arr trace.toArray)
 
 end LK.Driver.C14
+
+namespace LK.Driver.C04
+open LK.Scatter
+
+/-- `c04.scatter`: items (ids), vocab (known ids in number order), table (per number: rational string or null) -/
+def run (args : Json) : Except String Json := do
+  let items ← natList args "items"
+  let vocab ← natList args "vocab"
+  let table ← (← getArr args "table").mapM (fun j => match j with | Json.null => pure none | v => do pure (some (← ratOf v)))
+  let multFirst := (getBool args "mult_first").toOption.getD false
+  let num (i : Nat) : Option Nat := let k := vocab.idxOf i; if k < vocab.length then some k else none
+  let tbl (k : Nat) : Option Rat := (table.getD k none)
+  let L : List (Item Nat) := items.zipIdx.map (fun (i, pos) => { id := i, fields := pos })
+  let out := if multFirst then scoreListMultFirst num tbl vocab.length L else scoreList num tbl L
+  pure (Json.arr (out.map (fun it => Json.mkObj [("id", Json.num (JsonNumber.fromNat it.id)), ("pos", Json.num (JsonNumber.fromNat it.fields)), ("score", optRatToJson it.score)])).toArray)
+
+end LK.Driver.C04
+
+namespace LK.Driver.C12
+open LK.Batch
+
+/-- `c12.batch`: keys, outcomes (a number per task = its result's tag, null = the task raises), a completion order -/
+def run (args : Json) : Except String Json := do
+  let keys ← (← getArr args "keys").mapM (·.getInt?)
+  let outs ← (← getArr args "outcomes").mapM (fun j => match j with | Json.null => pure none | v => do pure (some (← v.getNat?)))
+  let order ← natList args "order"
+  let tasks : List (Int × Nat) := keys.zipIdx
+  let f (i : Nat) : Except Nat Nat := match outs.getD i none with | some v => .ok v | none => .error i
+  let show_ (r : Except Err (List (Int × Nat))) : Json := match r with
+    | .ok l => Json.mkObj [("ok", Json.arr (l.map (fun (k, v) => Json.arr #[Json.num (JsonNumber.fromInt k), Json.num (JsonNumber.fromNat v)])).toArray)]
+    | .error (.task i) => Json.mkObj [("error", Json.num (JsonNumber.fromNat i))]
+    | .error .missing => Json.mkObj [("error", Json.str "missing")]
+  pure (Json.mkObj [("batch", show_ (batch tasks f order)), ("sequential", show_ (sequential tasks f))])
+
+end LK.Driver.C12
